@@ -21,6 +21,8 @@ type Pty struct {
 	SlavePath string
 	hold      *os.File // a slave descriptor of our own: the master does not see a hang-up while tcell reopens the device
 
+	mfd    int          // the master's descriptor number (ioctls)
+	cmu    sync.RWMutex // closing against the calls that use the master
 	mu     sync.Mutex
 	out    []byte
 	closed bool
@@ -44,7 +46,7 @@ func Open(w, h int) (*Pty, error) {
 		m.Close()
 		return nil, fmt.Errorf("ptsname: %v", err)
 	}
-	p := &Pty{Master: m, SlavePath: fmt.Sprintf("/dev/pts/%d", n), done: make(chan struct{})}
+	p := &Pty{Master: m, mfd: mfd, SlavePath: fmt.Sprintf("/dev/pts/%d", n), done: make(chan struct{})}
 	if p.hold, err = os.OpenFile(p.SlavePath, os.O_RDWR|syscall.O_NOCTTY, 0); err != nil {
 		m.Close()
 		return nil, err
@@ -74,12 +76,22 @@ func (p *Pty) collect() {
 func (p *Pty) Tty() (tcell.Tty, error) { return tcell.NewDevTtyFromDev(p.SlavePath) }
 
 // Inject types bytes at the terminal.
-func (p *Pty) Inject(b []byte) { p.Master.Write(b) }
+func (p *Pty) Inject(b []byte) {
+	p.cmu.RLock()
+	defer p.cmu.RUnlock()
+	if !p.closed {
+		p.Master.Write(b)
+	}
+}
 
 // SetSize changes the window size; fire also raises SIGWINCH in this process (the kernel signals
 // only the foreground process group of a controlling terminal, which the pair is not).
 func (p *Pty) SetSize(w, h int, fire bool) bool {
-	unix.IoctlSetWinsize(int(p.Master.Fd()), unix.TIOCSWINSZ, &unix.Winsize{Row: uint16(h), Col: uint16(w)})
+	p.cmu.RLock()
+	if !p.closed {
+		unix.IoctlSetWinsize(p.mfd, unix.TIOCSWINSZ, &unix.Winsize{Row: uint16(h), Col: uint16(w)})
+	}
+	p.cmu.RUnlock()
 	if fire {
 		syscall.Kill(os.Getpid(), syscall.SIGWINCH)
 	}
@@ -88,18 +100,33 @@ func (p *Pty) SetSize(w, h int, fire bool) bool {
 
 // FailRead hangs the terminal up: reads and writes on the slave fail from now on.
 func (p *Pty) FailRead(error) {
-	p.mu.Lock()
+	p.cmu.Lock()
 	if !p.closed {
 		p.closed = true
 		p.hold.Close()
 		p.Master.Close()
 	}
-	p.mu.Unlock()
+	p.cmu.Unlock()
 }
 
 // Termios returns the line settings of the pair (the slave's, as seen from the master).
 func (p *Pty) Termios() (*unix.Termios, error) {
-	return unix.IoctlGetTermios(int(p.Master.Fd()), unix.TCGETS)
+	p.cmu.RLock()
+	defer p.cmu.RUnlock()
+	if p.closed {
+		return nil, os.ErrClosed
+	}
+	return unix.IoctlGetTermios(p.mfd, unix.TCGETS)
+}
+
+// SetTermios changes the line settings of the pair.
+func (p *Pty) SetTermios(t *unix.Termios) error {
+	p.cmu.RLock()
+	defer p.cmu.RUnlock()
+	if p.closed {
+		return os.ErrClosed
+	}
+	return unix.IoctlSetTermios(p.mfd, unix.TCSETS, t)
 }
 
 // Output returns a copy of everything the slave side has written so far.
